@@ -89,6 +89,19 @@ pub fn norm(v: &Value) -> Value {
     }
 }
 
+/// does a page entry equal the expected entry? For `loose` keys only the fields the expected entry
+/// names are compared.
+pub fn entry_matches(b: &Built, key: &Key, want: &Value, got: &Value) -> bool {
+    if b.loose.contains(key) {
+        match (norm(want), norm(got)) {
+            (Value::Object(w), Value::Object(g)) => w.iter().all(|(k, v)| g.get(k) == Some(v)),
+            (w, g) => w == g,
+        }
+    } else {
+        norm(want) == norm(got)
+    }
+}
+
 /// the expected items strictly after `cursor` in listing order
 pub fn rest_after<'a>(l: &Listing, b: &'a Built, cursor: Option<&Key>) -> &'a [(Key, Value)] {
     match cursor {
@@ -196,7 +209,7 @@ pub fn check_page(l: &Listing, b: &Built, n: usize, limit: Option<u32>, cursor: 
     // each entry equal to what the point query answers for that key
     let mut content_ok = true;
     for (i, it) in page.iter().enumerate() {
-        let ok = i < rest.len() && norm(it) == norm(&rest[i].1);
+        let ok = i < rest.len() && entry_matches(b, &rest[i].0, &rest[i].1, it);
         if !ok {
             content_ok = false;
             let what = match key_of(l, it) {
@@ -349,34 +362,85 @@ pub struct Info {
     pub alt_reading: bool,
 }
 
-/// true if the first full page lists an entry that only the first reading calls a current item
-pub fn follows_first_reading(l: &Listing, b: &Built, alt: &Built) -> bool {
-    let full = fetch(l, b, None, Some(MAX_LIMIT as u32)).unwrap_or_default();
-    full.iter()
-        .filter_map(|it| key_of(l, it))
-        .any(|k| !alt.expected.iter().any(|(a, _)| *a == k))
+/// every key the listing returns when walked with the maximum page size
+pub fn listed_keys(l: &Listing, b: &Built) -> BTreeSet<Key> {
+    let mut out = BTreeSet::new();
+    let mut cursor: Option<Key> = None;
+    for _ in 0..b.stored.len() + 3 {
+        let page = fetch(l, b, cursor.as_ref(), Some(MAX_LIMIT as u32)).unwrap_or_default();
+        let keys: Vec<Key> = page.iter().filter_map(|it| key_of(l, it)).collect();
+        match keys.last() {
+            None => break,
+            Some(k) => cursor = Some(k.clone()),
+        }
+        out.extend(keys);
+    }
+    out
+}
+
+/// Which reading of "current item" does the listing follow? It shows an entry only the first reading
+/// calls an item => first; it shows an entry only the alternative calls an item => alternative; it
+/// shows neither kind => the narrower reading.
+pub fn follows_alt_reading(l: &Listing, b: &Built, alt: &Built) -> bool {
+    let first: BTreeSet<&Key> = b.expected.iter().map(|(k, _)| k).collect();
+    let second: BTreeSet<&Key> = alt.expected.iter().map(|(k, _)| k).collect();
+    let listed = listed_keys(l, b);
+    if listed.iter().any(|k| first.contains(k) && !second.contains(k)) {
+        return false;
+    }
+    if listed.iter().any(|k| second.contains(k) && !first.contains(k)) {
+        return true;
+    }
+    // nothing distinguishing is listed: the reading without such entries
+    first.iter().any(|k| !second.contains(*k))
+}
+
+/// For stores with two listings over the same data: both must follow the same reading.
+pub fn check_sibling(l: &Listing, n: usize, b: &Built) -> Option<Violation> {
+    let alt = b.alternative()?;
+    let sibling = b.sibling_follows_alt?;
+    let mine = follows_alt_reading(l, b, &alt);
+    if mine != sibling {
+        let say = |x: bool| if x { "lists fully revoked pairs (amount 0)" } else { "does not list fully revoked pairs" };
+        return Some(Violation::new(
+            "C20.listings_disagree_on_items",
+            format!("{} n={}: this listing {}, the other listing over the same store {}", l.name, n, say(mine), say(sibling)),
+        ));
+    }
+    None
 }
 
 /// Enumerate the whole pager state space of one (listing, n) configuration.
 pub fn sweep(l: &Listing, n: usize, known: &dyn KnownMatcher) -> Result<(RunStats, Info), String> {
     let config = format!("{}/n={}", l.name, n);
     let b = l.build(n).map_err(|e| format!("{config}: {e}"))?;
-    let first = sweep_built(l, n, &b, false, known);
-    if first.0.found.iter().all(|f| f.known.is_some()) {
-        return Ok(first);
-    }
-    // The store admits a second reading of "current item". Which one does the listing follow?
-    // It lists an entry that only the first reading calls current => first reading; else the second.
-    if let Some(alt) = b.alternative() {
-        if !follows_first_reading(l, &b, &alt) {
-            let (mut st, mut info) = sweep_built(l, n, &alt, true, known);
-            st.transitions += first.0.transitions;
-            info.fetches += first.1.fetches;
-            info.alt_reading = true;
-            return Ok((st, info));
+    let mut res = sweep_built(l, n, &b, false, known);
+    // The store admits a second reading of "current item": if the first one does not hold, judge the
+    // listing under the reading it follows.
+    if !res.0.found.iter().all(|f| f.known.is_some()) {
+        if let Some(alt) = b.alternative() {
+            if follows_alt_reading(l, &b, &alt) {
+                let first = res;
+                res = sweep_built(l, n, &alt, true, known);
+                res.0.transitions += first.0.transitions;
+                res.1.fetches += first.1.fetches;
+                res.1.alt_reading = true;
+            }
         }
     }
-    Ok(first)
+    if let Some(v) = check_sibling(l, n, &b) {
+        if known.matches(&v).is_none() {
+            res.0.found.push(Found {
+                config: config.clone(),
+                clause: v.clause,
+                detail: v.detail,
+                tags: v.tags,
+                trace: vec![case_json_reading(l, n, "readings", None, None, false)],
+                known: None,
+            });
+        }
+    }
+    Ok(res)
 }
 
 fn sweep_built(l: &Listing, n: usize, b: &Built, alt_reading: bool, known: &dyn KnownMatcher) -> (RunStats, Info) {
